@@ -21,7 +21,8 @@ which is what rs-matter's X.509 / CSR / CMS parsers are built on. This file rela
 * `readTree_sound`, `readTree_iff_parseDer` — on **all** byte strings within `Length::MAX`:
   `readTree l = some d ↔ parseDer l = some d ∧ d.known` (both readers accept canonical DER only; the
   `der` crate knows fewer tags than the model's reader admits, that is the only difference).
-* `cert_view_known`, `cert_der_roundtrip_derrd` — the certificate round trip with `readTree` as the reader.
+* `certFieldsOfDer_known`, `cert_der_roundtrip_derrd` — the certificate round trip with `readTree` as the reader of the
+  outer tree (`Lemmas/CodecDerLinkFull.lean`, `cert_der_roundtrip_rd`: also of the value inside every known extension).
 -/
 namespace Codec.Der
 open Codec
@@ -636,8 +637,9 @@ For every certificate within the declared bounds, `as_asn1` into any buffer with
 `n.enc`; on these bytes the model of `AnyRef::from_der` (crate `der` 0.7.10) returns the outer tag and value, the
 tree reader made only of the crate's routines (`readTree`: `AnyRef::from_der` + the `while !is_finished()
 { AnyRef::decode }` loop on every constructed value) returns the *same* tree `d` as the model's own `parseDer`
-(so `C17.cert_der_roundtrip` does not depend on `parseDer` being a faithful DER reader), every tag of `d` is one
-the crate knows, and the fields read from `d` are the certificate's (`Fields.view`).
+(for the **outer tree**: the value inside the `extnValue` OCTET STRING of a known extension is a leaf of `d`, and
+`certFieldsOfDer` still reads that with `parseDer` — `C17.cert_der_roundtrip_rd` in `Lemmas/CodecDerLinkFull.lean` removes
+this last use), every tag of `d` is one the crate knows, and the fields read from `d` are the certificate's (`Fields.view`).
 
 What this does **not** say: `certFieldsOfDer` (tree → fields) is still specification-side — rs-matter has no
 X.509 → Matter-TLV conversion, and its X.509 parser (`cert/x509/cert.rs`) is for DAC / PAI / PAA attestation
